@@ -440,6 +440,7 @@ func remoteCase(c *ev.Ctx, s *sim.Sim, r *rand.Rand, n int) {
 		w.SetDoc(addr(p), doc)
 	}
 	s.SetHandler(wk.Handler(w))
+	s.ResetLog()
 	d := map[string]any{"remote_layout": l}
 	// reference: infinite-aware walk
 	next := func(p int) (int, string) { // returns next page index or -1, and why the chain stops
